@@ -721,7 +721,7 @@ def check_c02(res, ctx):
     longl = []
     for tid in (2, 3, 13, 1, 254 if 254 in ref.ALL_TIDS else 4):
         sz = ref.SIZES[tid]
-        for n in ([16385, 40000] if ctx.tier == "quick" else [16384, 16385, 32769, 65537, 100001]):
+        for n in ([16385, 66000] if ctx.tier == "quick" else [16384, 16385, 32769, 65537, 100001, 1048577]):
             for enc in (1, 2):
                 if tid == 1:
                     els = ["%02x" % ((i * 7 // 3) % 2) for i in range(n)]
@@ -883,7 +883,7 @@ def table_lines(ctx, n, kind="rt", prefix="", small=False, incons=0.08):
             t = ref.Table([], [[(b"Name", ref.Obj(10, [b"c0"]), None)]], [[((r.choice([0, 1, 2]), o), [])]])
             out.append((t, "cap=100000000 %s%s %s" % (prefix, kind, t.script())))
         # a long column (more rows than any staging buffer): distinct values, plain and run-length
-        for tid, n in ((2, 66000), (13, 17000)) if ctx.tier == "quick" else ((2, 70000), (3, 140000), (13, 33000)):
+        for tid, n in ((2, 66000), (13, 17000)) if ctx.tier == "quick" else ((2, 70000), (3, 140000), (13, 33000), (2, 1100000)):
             sz = ref.SIZES[tid]
             o = ref.Obj(tid, [((i * 2654435761) % (1 << 32)).to_bytes(4, "little") + b"\0" * (sz - 4) for i in range(n)])
             t = ref.Table([], [[(b"Name", ref.Obj(10, [b"c0"]), None)], [(b"Name", ref.Obj(10, [b"c1"]), None)]],
